@@ -362,15 +362,17 @@ class Facts:
         for key, b in list(self.bodies.items()):
             if b.kind == "Closure" or key[0].endswith("#test"):
                 continue
-            calls = b.calls()
+            calls = [c for c in b.calls() if c.callee.get("name") not in ("deref", "deref_mut", "as_ref", "as_mut", "borrow", "borrow_mut")]
             if len(calls) != 1:
                 continue
             c = calls[0]
             d = c.callee.get("def", "")
-            if not d.startswith("crossbeam_queue::"):
+            ring = d.startswith("crossbeam_queue::")
+            local = False
+            if not ring and not local:
                 continue
             live = [i for i in b.live_blocks()]
-            if len(live) > 3 or c.dest.get("p") or c.dest["l"] != 0 and not any(
+            if len(live) > 5 or c.dest.get("p") or c.dest["l"] != 0 and not any(
                     s["k"] == "assign" and s["lhs"]["l"] == 0 and s["rv"]["k"] == "use" and (s["rv"]["op"].get("move") or s["rv"]["op"].get("copy") or {}).get("l") == c.dest["l"]
                     for i in live for s in b.stmts(i)):
                 continue
@@ -379,7 +381,7 @@ class Facts:
                 continue
             thin[b.def_] = dict(c.callee)
             if b.impl and b.impl.get("trait"):
-                thin[b.impl["trait"] + "::" + b.name] = dict(c.callee)
+                thin[strip_generics(b.impl["trait"]) + "::" + b.name] = dict(c.callee)
             b.thin = True
         if not thin:
             return
@@ -394,7 +396,7 @@ class Facts:
                 t = blk.get("term")
                 if t and t.get("k") == "call":
                     c = t.get("callee") or {}
-                    inner = thin.get(c.get("resolved") or "") or thin.get(c.get("def") or "")
+                    inner = thin.get(c.get("resolved") or "") or thin.get(c.get("def") or "") or thin.get(strip_generics(c.get("def") or ""))
                     if inner is not None:
                         new_c = dict(inner)
                         new_c["via_wrapper"] = c.get("def")
